@@ -159,16 +159,25 @@ impl UserPref {
                     return Err(anyhow::anyhow!("Failed to create directory: {}", e));
                 }
             }
+            // 保存中にプロセスが終了しても既存のファイルが壊れないよう、一時ファイルに書き出してからrenameする
             let path = dir.join(USER_FREQUENCY_NAME);
-            let mut file = std::fs::File::create(path)?;
-            let bytes = postcard::to_allocvec(&self.frequency)?;
-            file.write_all(&bytes)?;
+            let tmp_path = dir.join(format!("{}.tmp", USER_FREQUENCY_NAME));
+            {
+                let mut file = std::fs::File::create(&tmp_path)?;
+                let bytes = postcard::to_allocvec(&self.frequency)?;
+                file.write_all(&bytes)?;
+            }
+            fs::rename(&tmp_path, path)?;
 
             let path = dir.join(USER_DICTIONARY_NAME);
-            let file = std::fs::File::create(path)?;
+            let tmp_path = dir.join(format!("{}.tmp", USER_DICTIONARY_NAME));
+            {
+                let file = std::fs::File::create(&tmp_path)?;
 
-            let mut writer = StandardDictionaryWriter::new(file);
-            writer.write_all(&self.user_dictionary)?;
+                let mut writer = StandardDictionaryWriter::new(file);
+                writer.write_all(&self.user_dictionary)?;
+            }
+            fs::rename(&tmp_path, path)?;
         }
         Ok(())
     }
